@@ -17,7 +17,8 @@ from families.loadcommon import observe_lines
 PROPERTY = "C04"
 FAMILY = "load"
 LEAN_MODULE = "ElfioVerif.Props.C04"
-THEOREMS = ["ElfioVerif.C04.layoutLoose_disjoint"]
+THEOREMS = ["ElfioVerif.C04.layoutLoose_disjoint", "ElfioVerif.C04.layoutLoose_aligned",
+            "ElfioVerif.C04.wsd_monotone", "ElfioVerif.C04.layout_disjoint"]
 SITES = ["save_", "lsws", "lst_", "lseg", "wsd"]
 RULE = ("writer-domain programs (power-of-two alignments; segment members in address order, non-empty, allocated, "
         "no-bits only last; automatic or explicit non-overlapping addresses; nested segments starting at a "
